@@ -328,3 +328,36 @@ Proof.
                px_wf ltac:(vm_compute; reflexivity) eq_refl G1 G2 G3 G4 G5 eq_refl G6 G7 G8 G9 eq_refl eq_refl eq_refl)
   end.
 Qed.
+
+(* 13. the arguments of a test: a tag the test does not take; a tag whose extension is not loaded *)
+Ltac bad_test_arg text :=
+  let toks := eval vm_compute in (fst (lex text)) in
+  let p := eval vm_compute in (firstn 10 toks) in
+  let r := eval vm_compute in (skipn 10 toks) in
+  match r with
+  | ?tn :: ?tl :: ?t :: ?rest =>
+      let gd := eval vm_compute in (get_command_instance gen_tables [bs "fileinto"] (t_val tn)) in
+      let gl := eval vm_compute in (get_command_instance gen_tables [bs "fileinto"] (t_val tl)) in
+      match gd with
+      | inl ?d =>
+          match gl with
+          | inl ?dl =>
+              let aa := eval vm_compute in (hd (mkArg [] [] false None None None None) (d_args d)) in
+              pose proof (test_argument_rejected gen_tables gen_twf text p tn tl [] t rest [bs "fileinto"] None 1 d aa dl [] _ TyTag
+                            px_wf ltac:(vm_compute; reflexivity) eq_refl ltac:(vm_compute; reflexivity) eq_refl eq_refl eq_refl eq_refl
+                            eq_refl ltac:(vm_compute; reflexivity) eq_refl eq_refl ltac:(vm_compute; reflexivity) (Forall_nil _) eq_refl eq_refl
+                            ltac:(vm_compute; reflexivity) (or_intror (or_intror (conj eq_refl eq_refl)))) as R;
+              revert R;
+              match goal with |- match ?c with _ => _ end -> _ => let v := eval vm_compute in c in change c with v end;
+              cbv iota; intro R; eexists; exact R
+          end
+      end
+  end.
+
+Example ex_unknown_tag_in_test :
+  exists e, parse gen_tables (bs (px_text ++ "if header :bogus ""a"" ""b"" { } }")) = Reject e 56 6.
+Proof. bad_test_arg (bs (px_text ++ "if header :bogus ""a"" ""b"" { } }")). Qed.
+
+Example ex_tag_extension_in_test :
+  exists e, parse gen_tables (bs (px_text ++ "if header :regex ""a"" ""b"" { } }")) = Reject e 56 6.
+Proof. bad_test_arg (bs (px_text ++ "if header :regex ""a"" ""b"" { } }")). Qed.
